@@ -8,10 +8,12 @@ _WORLD_MODULES = {
     "wbdec": "worlds.wbdec",
     "wb2csr": "worlds.wb2csr",
     "sram": "worlds.sram",
+    "evmon": "worlds.evmon",
+    "csrevmon": "worlds.csrevmon",
 }
 PROPERTY_WORLD = {
     "C04": "mux", "C05": "mux",
-    "C07": "wbdec", "C10": "wb2csr", "C15": "sram",
+    "C07": "wbdec", "C10": "wb2csr", "C15": "sram", "C13": "evmon", "C14": "csrevmon",
     "C08": "arbiter", "C09": "arbiter",
     "C02": "memmap", "C03": "memmap", "C18": "memmap",
 }
